@@ -249,7 +249,9 @@ def encode(input, errors="strict", encoding=None):
     consumed = len(input)
     if encoding is None:
         # an unterminated charset rule gives no encoding, even if final
-        encoding = detectencoding_unicode(input, True)[0] or "utf-8"
+        encoding = detectencoding_unicode(input, True)[0]
+        if encoding is None:
+            encoding = "utf-8"
         if encoding.replace("_", "-").lower() == "utf-8-sig":
             input = _fixencoding(input, "utf-8", True)
     else:
@@ -258,6 +260,18 @@ def encode(input, errors="strict", encoding=None):
         raise ValueError("css not allowed as encoding name")
     # str.encode refuses codecs which are no text encodings (e.g. ``hex``)
     return (input.encode(encoding, errors), consumed)
+
+
+def _textcodec(encoding):
+    """The CodecInfo of a text encoding, as ``str.encode`` and
+    ``bytes.decode`` look it up (``hex`` or ``rot13`` are none)."""
+    info = codecs.lookup(encoding)
+    if not getattr(info, "_is_text_encoding", True):
+        raise LookupError(
+            "%r is not a text encoding; use codecs.encode()/decode() to "
+            "handle arbitrary codecs" % encoding
+        )
+    return info
 
 
 def _bytes2int(bytes):
@@ -314,7 +328,7 @@ class IncrementalDecoder(codecs.IncrementalDecoder):
                 ) or self.encoding is None:  # Take the encoding from the input
                     self.encoding = encoding
             self.buffer = ""  # drop buffer, as the decoder might keep its own
-            decoder = codecs.getincrementaldecoder(self.encoding)
+            decoder = _textcodec(self.encoding).incrementaldecoder
             self.decoder = decoder(self._errors)
         if self.headerfixed:
             return self.decoder.decode(input, final)
@@ -370,7 +384,7 @@ class IncrementalDecoder(codecs.IncrementalDecoder):
         self.buffer = state[1]
         self.headerfixed = state[2]
         if state[3]:
-            self.decoder = codecs.getincrementaldecoder(self.encoding)(self._errors)
+            self.decoder = _textcodec(self.encoding).incrementaldecoder(self._errors)
             self.decoder.setstate(state[4])
         else:
             self.decoder = None
@@ -418,7 +432,7 @@ class IncrementalEncoder(codecs.IncrementalEncoder):
             if self.encoding is not None:
                 if self.encoding == "css":
                     raise ValueError("css not allowed as encoding name")
-                info = codecs.lookup(self.encoding)
+                info = _textcodec(self.encoding)
                 encoding = self.encoding
                 if self.encoding.replace("_", "-").lower() == "utf-8-sig":
                     input = _fixencoding(input, "utf-8", True)
@@ -455,11 +469,15 @@ class IncrementalEncoder(codecs.IncrementalEncoder):
         return _bytes2int(marshal.dumps(state))
 
     def setstate(self, state):
+        if state == 0:
+            # the state of every encoder before anything is encoded
+            self.reset()
+            return
         state = marshal.loads(_int2bytes(state))
         self.encoding = state[0]
         self.buffer = state[1]
         if state[2]:
-            self.encoder = codecs.getincrementalencoder(self.encoding)(self._errors)
+            self.encoder = _textcodec(self.encoding).incrementalencoder(self._errors)
             self.encoder.setstate(state[3])
         else:
             self.encoder = None
@@ -497,7 +515,7 @@ class StreamWriter(codecs.StreamWriter):
                     raise ValueError("css not allowed as encoding name")
                 # an incremental encoder keeps the state of stateful
                 # encodings between the calls
-                self.streamwriter = codecs.getincrementalencoder(self.encoding)(
+                self.streamwriter = _textcodec(self.encoding).incrementalencoder(
                     self._errors
                 )
                 encoding = self.encoding
@@ -557,7 +575,7 @@ class StreamReader(codecs.StreamReader):
                     self.encoding = encoding
             # an incremental decoder keeps incomplete characters and the
             # shift state of stateful encodings between the calls
-            streamreader = codecs.getincrementaldecoder(self.encoding)
+            streamreader = _textcodec(self.encoding).incrementaldecoder
             streamreader = streamreader(errors)
             output = streamreader.decode(input)
             encoding = self.encoding
